@@ -192,14 +192,20 @@ Variable dfltA : A.
 Variable dfltB : B.
 Variable conv : A -> B.         (* static_cast<element_t> *)
 
+Definition cast_data (st : state A) : list B :=
+  map (fun i => match get st i with Some x => conv x | None => dfltB end) (lex_enum (st_shape st)).
 Definition cast (st : state A) (k' : kind) : option (state B) :=
   let r0 := init dfltB k' RowMajor in
-  let (ok, r1) := resize dfltB r0 (st_shape st) in
-  if ok then
-    Some (mkState k' RowMajor (st_shape r1) (st_strides r1) (st_off r1)
-            (map (fun i => match get st i with Some x => conv x | None => dfltB end)
-                 (lex_enum (st_shape st))))
-  else None.
+  match sk k' with
+  | SConstant c =>      (* not resizable: the constant shape must be the source shape (static_assert) *)
+      if list_eq_dec Z.eq_dec c (st_shape st)
+      then Some (mkState k' RowMajor (st_shape r0) (st_strides r0) (st_off r0) (cast_data st))
+      else None
+  | _ =>
+      let (ok, r1) := resize dfltB r0 (st_shape st) in
+      if ok then Some (mkState k' RowMajor (st_shape r1) (st_strides r1) (st_off r1) (cast_data st))
+      else None
+  end.
 End Cast.
 Arguments cast {A B}.
 
